@@ -4,7 +4,7 @@ use crate::checks::c01::SemJudge;
 use crate::progcheck::{self};
 use cvx_core::engine::{Check, CheckInfo, ChunkResult, Tier, Violation};
 use cvx_core::gen_basic::Family;
-use cvx_core::gen_closure::{FClosureTwin, FClosure, FClosureNest, FClosureOrder};
+use cvx_core::gen_closure::{FClosureArgs, FClosureTwin, FClosure, FClosureNest, FClosureOrder};
 use cvx_core::region::RegionOpts;
 use serde_json::Value as J;
 use std::sync::OnceLock;
@@ -14,7 +14,7 @@ pub struct C06;
 static FAMS: OnceLock<Vec<Box<dyn Family>>> = OnceLock::new();
 
 pub fn families(_tier: Tier) -> &'static Vec<Box<dyn Family>> {
-    FAMS.get_or_init(|| vec![Box::new(FClosureTwin), Box::new(FClosureNest), Box::new(FClosureOrder), Box::new(FClosure)])
+    FAMS.get_or_init(|| vec![Box::new(FClosureArgs), Box::new(FClosureTwin), Box::new(FClosureNest), Box::new(FClosureOrder), Box::new(FClosure)])
 }
 
 static JUDGE: SemJudge = SemJudge { property: "C06", opts: RegionOpts { inline_array: false } };
@@ -26,7 +26,7 @@ impl Check for C06 {
     fn info(&self, tier: Tier) -> CheckInfo {
         let fams = families(tier);
         CheckInfo {
-            rule: "F-closure-twin: closure expressions at the same card position of 2 or 3 different functions (same module, root and submodule, sibling modules, module and its child, main and a callee; card position 0 / 1; with / without an inner closure; both call orders), each returning its own tag. F-closure-order: two sibling closures of one callee, each referencing every ordered selection of three locals (open upvalues created in every slot order), called in scope, then after the callee returned and its stack area was reused. F-closure-nest: middle closure referencing an ordered selection of {a,b} x inner closure referencing every ordered selection of {a,b,m} (read-sum / write) x main / callee / one more closure level, so that local captures and captures of parent upvalues have differing, overlapping index ranges. F-closure: creation context (main; callee with 0 / 2 arguments and 0 / 2 caller locals; callee at call depth 2; Repeat iteration; ForEach iteration; another closure; callee invoked from a loop) x captured variable (earlier local, parameter, later-declared local, loop variable, variable of the grand-parent, name shadowed by a loop variable) x body action (read, write, read-write, create-and-return an inner closure) x sibling closure sharing the variable x export (global, table field, passed to a function that calls it) x unused-value statement between creation and scope end x root module vs. submodule next to a decoy module with a closure at the same card position. Every closure is called twice inside its scope, twice after the scope ended, once per loop iteration afterwards. Oracle: reference interpreter with by-reference capture (cells), observation = host-call log + globals. 'states' = distinct reference outcomes per chunk".into(),
+            rule: "F-closure-args: closure literals as callee and as 1..3 arguments of one DynamicCall (immediately invoked closure), in main / in a callee, arguments with / without an inner closure. F-closure-twin: closure expressions at the same card position of 2 or 3 different functions (same module, root and submodule, sibling modules, module and its child, main and a callee; card position 0 / 1; with / without an inner closure; both call orders), each returning its own tag. F-closure-order: two sibling closures of one callee, each referencing every ordered selection of three locals (open upvalues created in every slot order), called in scope, then after the callee returned and its stack area was reused. F-closure-nest: middle closure referencing an ordered selection of {a,b} x inner closure referencing every ordered selection of {a,b,m} (read-sum / write) x main / callee / one more closure level, so that local captures and captures of parent upvalues have differing, overlapping index ranges. F-closure: creation context (main; callee with 0 / 2 arguments and 0 / 2 caller locals; callee at call depth 2; Repeat iteration; ForEach iteration; another closure; callee invoked from a loop) x captured variable (earlier local, parameter, later-declared local, loop variable, variable of the grand-parent, name shadowed by a loop variable) x body action (read, write, read-write, create-and-return an inner closure) x sibling closure sharing the variable x export (global, table field, passed to a function that calls it) x unused-value statement between creation and scope end x root module vs. submodule next to a decoy module with a closure at the same card position. Every closure is called twice inside its scope, twice after the scope ended, once per loop iteration afterwards. Oracle: reference interpreter with by-reference capture (cells), observation = host-call log + globals. 'states' = distinct reference outcomes per chunk".into(),
             bound: format!("families {:?}, {} programs", fams.iter().map(|f| format!("{}={}", f.name(), f.len())).collect::<Vec<_>>(), progcheck::total_cases(fams)),
             exhaustive: true,
             assumptions: vec!["closure nesting depth <= 2 in this family (depth up to 9 is compiled and run under C04)".into()],
